@@ -645,10 +645,21 @@ pub mod implementations {
                 "The `printn` instruction should not be used. Favor the standard library instead."
             );
 
+            #[cfg(mscript_verif)]
+            if crate::verif_hooks::typed_print_enabled() {
+                print!("{}:", crate::verif_hooks::kind_of(first));
+            }
+
             print!("{first}");
             let operating_stack = ctx.get_local_operating_stack();
 
             for var in operating_stack.iter().skip(1) {
+                #[cfg(mscript_verif)]
+                if crate::verif_hooks::typed_print_enabled() {
+                    print!(", {}:{var}", crate::verif_hooks::kind_of(var));
+                    continue;
+                }
+
                 print!(", {var}")
             }
 
